@@ -1,5 +1,7 @@
 """C02  Conflict-free (LL(1)) grammars are parsed exactly (ak/llparser.py)"""
 import itertools
+import json
+import re
 
 from harness.lib import sx as SX
 from harness.props import llp_common as L
@@ -10,7 +12,7 @@ EXTRA_COQ_DIRS = ["LLP", "C01"]
 RUN_MOD = "C02.Run"
 MODEL_TARGETS = ["C02/Run.vo"]
 PROOF_TARGETS = ["C02/Lemmas.vo"]
-PROPS = ["C02/Props.v"]
+PROPS = ["C02/Props.v", "C02/PropsTok.v"]
 ALLOWED_AXIOMS = []
 IMPL_TIMEOUT = 30.0
 COQ_SHARD = 6
@@ -32,11 +34,39 @@ RULE = ("grammars: (a) generator biased to LL(1) (distinct leading terminals, at
         "tree is taken apart by the caller before the next call.  Inputs per "
         "grammar: sampled sentences, sentences with one token inserted/deleted/replaced, random and short token strings; "
         "membership decided by an Earley recogniser, the expected tree by an independent enumeration of derivations.  "
+        "(e) TOKENIZER CONFIGURATIONS (family tok, 110 quick / 700 thorough; in (a)-(d) every parser is built with the plain "
+        "tokenizer of llp_common, where SPACE is skipped by default and never a terminal, so that skip_tokens cannot matter): a random "
+        "configuration in the pattern language of coq/C04/Model.v -- white space as group SPACE / WS renamed to SPACE by synonyms / WS "
+        "not renamed, end-of-line comments as COMMENT / REM renamed to COMMENT / REM / none, WORD, NUM, one-character literals (some "
+        "renamed to themselves), optionally the keyword (WORD, if) -> IF -- and a skip_tokens argument whose MEANING is: None (20%), "
+        "an EMPTY collection = skip nothing (30%), the white-space class, the comment class, the default spelled out, ANOTHER class "
+        "only (blanks and comments stay), white space + another class; PASSED as omitted / None / list / set / tuple / frozenset; "
+        "synonyms / keywords / span_matchers omitted, None or a dict ({} when there are none), keep_symbols omitted / None / set() / [], "
+        "start_symbol_name passed, or omitted with a start symbol named 'E' (20%), or a symbol named '' (30%: the start symbol -- then "
+        "another symbol is named 'E' -- or another symbol, which is then also used in parse(text, start_symbol_name='')).  The grammar: "
+        "blank- / comment-significant LL(1) shapes (E -> ITEM TAIL; TAIL -> SPACE ITEM TAIL | eps; optional blanks around separators; "
+        "lines ended by comments) or a grammar of (a), (b), (d) / with one injected conflict whose terminals are renamed injectively "
+        "to the token names that are NOT skipped, white space and comments first.  Texts are rendered from a KNOWN token sequence "
+        "(sentences, perturbed sentences, random strings, blanks inserted where the grammar has none; tokens of the skipped classes "
+        "thrown in; newlines where two lexemes would merge; no white-space token at the end of a line, where the tokenizer strips it); "
+        "the expected token sequence after skipping is the generator's own, never the library's; membership and the expected tree "
+        "are computed from it (Earley, enumeration of derivations).  The same programs over two objects as above, all constructor "
+        "calls with the SAME argument objects (which must be unchanged afterwards).  "
         "Non-trivial = distinct case, both constructors succeed, is_ambiguous() False for at least one setting, the grammar has a "
         "nullable symbol, at least one member and one non-member among the inputs.")
 TRUSTED_BASE = [
-    "tokenisation is outside this model: the model's parse receives the generator's token list (names, values); "
-    "the implementation tokenises the rendered text itself (tokenizer covered by C04)",
+    "plain cases (a)-(d): tokenisation is outside the model: the model's parse receives the generator's token list (names, "
+    "values); the implementation tokenises the rendered text itself.  tok cases (e): the model tokenises the text itself with the "
+    "tokenizer model coq/C04/Model.v (owned by C04; patterns restricted to its pattern language) inside C01's end-to-end model "
+    "C01/RunTok.v (build_cfg, text_tokens, parse_text; read-only here), and its token sequence is compared with the generator's",
+    "re (CPython): pattern.match(line, col) returns the first alternative that matches at col; gen/C04_Consts.v (white space "
+    "table, the default skip list and the test `skip_tokens is None` in front of it, $END$ name) is regenerated from the current "
+    "source by harness/props/c04.py:gen_consts, fail closed",
+    "which Python values of the constructor's optional arguments mean 'not given' is not part of the Coq model (the model has "
+    "skip : option (list sym) and an explicit start symbol): that None and only None selects a default -- for skip_tokens=[] / set() / "
+    "() / frozenset(), synonyms={}, keywords={}, span_matchers={}, keep_symbols=set() / [], start_symbol_name='' , "
+    "parse(text, start_symbol_name='') -- is what the harness's translation of the case into both worlds asserts and the "
+    "correspondence + oracle of the tok cases test on every run",
     "GrammarError checks of _verify_grammar_structure_part1 are outside the model; the model-side validator wf_grammar "
     "(keys distinct and no terminals, rules stored under their own symbol, only known symbols, start symbol is a key, "
     "$END$ is a terminal) is evaluated on every built grammar by C02.Run and must be true (it is the hypothesis of the theorems)",
@@ -52,7 +82,18 @@ ASSUMPTIONS = ["grammars use plain productions (templates are C05's subject)",
                "grammars are not left recursive (C03's subject); the generator filters with an independent check"]
 MODELLED = ("ak/llparser.py: _get_nullables, _calc_first_sets, _calc_follow_sets, _make_llone_table, is_ambiguous "
             "(coq/LLP/Table.v), together with the shared models of factorization, recursion check and the parse loop; "
-            "programs of constructor / is_ambiguous / parse calls on two objects built from one productions dict (coq/C02/Session.v)")
+            "programs of constructor / is_ambiguous / parse calls on two objects built from one productions dict (coq/C02/Session.v); "
+            "the same programs on parsers built with a tokenizer configuration and a skip_tokens argument and used on texts "
+            "(coq/C02/SessionTok.v over C01/RunTok.v: LLParser.__init__ 1574-1587 default / explicit skip_tokens, the filter of "
+            "parse() 1654-1657, _Tokenizer.tokenize)")
+
+
+def gen_consts(repo):
+    """C02/SessionTok.v and C02/PropsTok.v import C01's end-to-end model (C01/RunTok.v) over the tokenizer model
+    coq/C04/Model.v, which needs the constants read from the current source by C04's extractor (fail closed there:
+    $END$ name, the default skip list and the shape `if skip_tokens is None:` in front of it, white space table)"""
+    from harness.props import c04
+    return c04.gen_consts(repo)
 
 
 # ------------------------------------------------------------------ reference: derivation trees (independent)
@@ -411,6 +452,330 @@ def gen_inputs(rng, g, n_base=13, n_short=7):
     return out
 
 
+# ------------------------------------------------------------------ family "tok": the tokenizer configuration is part of the case
+# The plain cases above build every parser with llp_common.tokenizer_str (SPACE skipped by default, never a terminal of the
+# grammar), so "the token sequence of the text" never depends on skip_tokens there.  A tok case carries
+#   case["tok"]   = {"lex": [[group, kind, arg], ...]  pattern alternatives in the pattern language of coq/C04/Model.v,
+#                    "syn": [[group, name], ...], "kw": [[name, value, keyword token], ...],
+#                    "skip": None | [token names],                                  the MEANING of the skip_tokens argument
+#                    "skip_form": "omitted" | "none" | "list" | "set" | "tuple" | "frozenset",   how it is passed
+#                    "syn_form" / "kw_form" / "spans_form": "omitted" | "none" | "dict"  ({} when there are none),
+#                    "keep_form": "omitted" | "none" | "set" | "list"  (keep_symbols, always empty: cleanup is C05's subject),
+#                    "start_kw": bool   False: start_symbol_name is left to the constructor's default (the start symbol is 'E')}
+#   case["texts"] = the texts handed to parse();  case["inputs"][i] = the token sequence (names, values) of texts[i] AFTER THE
+#                   GENERATOR'S OWN skip filtering -- known by construction (the text is rendered from it), never taken from
+#                   the library's tokenizer; membership / the expected tree are computed from it by the oracle.
+TOK_COLL = {"list": list, "set": set, "tuple": tuple, "frozenset": frozenset}
+DEFAULT_SKIP = ["SPACE", "COMMENT"]       # the documented default of skip_tokens
+
+
+def _tok_pattern(entry):
+    name, kind_, arg = entry
+    if kind_ == "lit":
+        return f"(?P<{name}>{re.escape(arg)})"
+    if kind_ == "range":
+        return f"(?P<{name}>[{arg[0]}-{arg[1]}]+)"
+    if kind_ == "space":
+        return f"(?P<{name}>\\s+)"
+    if kind_ == "eol":
+        return f"(?P<{name}>{re.escape(arg)}.*)"
+    raise ValueError(kind_)
+
+
+def _tok_str(tk):
+    return "\n|".join(_tok_pattern(e) for e in tk["lex"])
+
+
+def _tok_terminals(tk):
+    """token names as the documentation of LLParser defines them: pattern groups, renamed by synonyms, plus keyword tokens"""
+    syn = dict(tk["syn"])
+    t = set(e[0] for e in tk["lex"]) - set(syn)
+    t |= set(syn.values())
+    t |= set(k[2] for k in tk["kw"])
+    return sorted(t)
+
+
+def _tok_skipset(tk):
+    """what the skip_tokens argument MEANS (documentation): None = SPACE and COMMENT; a collection = its members, also when empty"""
+    if tk["skip"] is None:
+        terms = _tok_terminals(tk)
+        return [t for t in DEFAULT_SKIP if t in terms]
+    return list(tk["skip"])
+
+
+def gen_tokcfg(rng):
+    """-> (tk, info); info["prod"]: final token name -> [[lexeme, value, ends_the_line], ...]"""
+    lex, syn, kw, prod = [], [], [], {}
+
+    def add(name, lexeme, value=None, eol=False):
+        prod.setdefault(name, []).append([lexeme, lexeme if value is None else value, eol])
+    # white space: a group SPACE, a group WS renamed to SPACE by synonyms, or a group WS that is not renamed
+    r = rng.random()
+    if r < 0.55:
+        lex.append(["SPACE", "space", ""])
+        space = "SPACE"
+    elif r < 0.85:
+        lex.append(["WS", "space", ""])
+        syn.append(["WS", "SPACE"])
+        space = "SPACE"
+    else:
+        lex.append(["WS", "space", ""])
+        space = "WS"
+    for lx in (" ", " ", "  ", "\t", " \t"):
+        add(space, lx)
+    # comments to the end of the line: group COMMENT, REM renamed to COMMENT, REM not renamed, or none
+    comment = None
+    r = rng.random()
+    if r < 0.8:
+        marker = rng.choice(["#", "//"])
+        if r < 0.4:
+            cg = comment = "COMMENT"
+        elif r < 0.65:
+            cg, comment = "REM", "COMMENT"
+            syn.append(["REM", "COMMENT"])
+        else:
+            cg = comment = "REM"
+        lex.append([cg, "eol", marker])
+        for c in ("", "c", " x y", " if 1"):
+            add(comment, marker + c, eol=True)
+    lex += [["WORD", "range", "az"], ["NUM", "range", "09"]]
+    words = ["a", "bc", "x", "zz"]
+    if rng.random() < 0.45:
+        kw.append(["WORD", "if", "IF"])
+        add("IF", "if")
+    else:
+        words.append("if")
+    for v in words:
+        add("WORD", v)
+    for v in ("0", "12", "7"):
+        add("NUM", v)
+    for g, ch in (("COMMA", ","), ("SEMI", ";"), ("PLUS", "+")):
+        if rng.random() < 0.7:
+            lex.append([g, "lit", ch])
+            n = g
+            if rng.random() < 0.3:
+                syn.append([g, ch])
+                n = ch
+            add(n, ch)
+    rng.shuffle(lex)
+    tk = {"lex": lex, "syn": syn, "kw": kw, "skip": None}
+    terms = _tok_terminals(tk)
+    default = [t for t in DEFAULT_SKIP if t in terms]
+    other = sorted(n for n in prod if n != space and n != comment)
+    r = rng.random()
+    if r < 0.2:
+        skip = None
+    elif r < 0.5:
+        skip = []                                           # given, and empty: skip nothing
+    elif r < 0.6:
+        skip = [space]
+    elif r < 0.68:
+        skip = [comment] if comment else [space]
+    elif r < 0.76:
+        skip = list(default) or [space]                     # the default, spelled out
+    elif r < 0.9:
+        skip = [rng.choice(other)]                          # another class only: blanks and comments stay
+    else:
+        skip = [space, rng.choice(other)]
+    tk["skip"] = skip
+    tk["skip_form"] = rng.choice(["omitted", "none"]) if skip is None else rng.choice(sorted(TOK_COLL))
+    tk["syn_form"] = "dict" if syn else rng.choice(["omitted", "none", "dict"])
+    tk["kw_form"] = "dict" if kw else rng.choice(["omitted", "none", "dict"])
+    tk["spans_form"] = rng.choice(["omitted", "none", "dict"])
+    tk["keep_form"] = rng.choice(["omitted", "none", "set", "list"])
+    tk["start_kw"] = True
+    info = {"prod": prod, "space": space, "comment": comment, "skipset": _tok_skipset(tk)}
+    return tk, info
+
+
+def _blank_grammar(rng, info, avail):
+    """blank- / comment-significant LL(1) shapes (None when white space and comments are all skipped)"""
+    sp = info["space"] if info["space"] in avail else None
+    cm = info["comment"] if info["comment"] in avail else None
+    subst = [n for n in avail if n not in (info["space"], info["comment"])]
+    if len(subst) < 2 or (sp is None and cm is None):
+        return None
+    rng.shuffle(subst)
+    w1, w2 = subst[0], subst[1]
+    sep = subst[2] if len(subst) > 2 else w2
+    E, T, I, O, M = rng.sample(NT_POOL, 5)
+    shapes = []
+    if sp:
+        shapes.append({E: [(I, T)], T: [(sp, I, T), ()], I: [(w1,), (w2,)]})
+        if sep != w2:
+            shapes.append({E: [(O, I, T)], O: [(sp,), ()], T: [(sep, O, I, T), ()], I: [(w1,), (w2,)]})
+        shapes.append({E: [(w1, T)], T: [(sp, M), ()], M: [(w1, T), (w2,)]})
+    if cm:
+        shapes.append({E: [(I, T)], T: [(cm, I, T), ()], I: [(w1, I), ()]})
+    if sp and cm:
+        shapes.append({E: [(w1, T)], T: [(sp, M), ()], M: [(w1, T), (cm,)]})
+        shapes.append({E: [(I, O, T)], O: [(sp,), ()], T: [(cm, I, O, T), ()], I: [(w1,), (w2, w1)]})
+    prods = rng.choice(shapes)
+    nts = list(prods)
+    if rng.random() < 0.5:
+        rng.shuffle(nts)
+    return _mk(nts, sorted(avail), prods, E)
+
+
+def _tok_grammar(rng, info):
+    skip = set(info["skipset"])
+    avail = sorted(n for n in info["prod"] if n not in skip)
+    g = _blank_grammar(rng, info, avail) if rng.random() < 0.35 else None
+    if g is None:
+        for _ in range(400):
+            r = rng.random()
+            if r < 0.65:
+                c = gen_ll1_candidate(rng)
+                if L.ref_left_recursive(_plain(c)) or not L.ref_is_ll1(_plain(c), c["start"]):
+                    continue
+            elif r < 0.75:
+                c = gen_one_conflict(rng)
+            elif r < 0.9:
+                c = gen_common_prefix(rng)
+            else:
+                c = gen_follow_family(rng)
+            used = sorted({s for _, alts in c["prods"] for a in alts for s in a if s in c["terms"]})
+            if len(used) <= len(avail) and not _has_duplicate_alts(c) and not L.ref_left_recursive(_plain(c)):
+                break
+        else:
+            raise RuntimeError("no grammar fits the configuration")
+        # rename the letter terminals (injectively) to token names that are not skipped; white space and comments first
+        pref = [n for n in (info["space"], info["comment"]) if n in avail]
+        rest = [n for n in avail if n not in pref]
+        rng.shuffle(rest)
+        rng.shuffle(pref)
+        pool = (pref + rest) if rng.random() < 0.8 else (rest + pref)
+        rng.shuffle(used)
+        m = dict(zip(used, pool))
+        g = dict(c)
+        g["prods"] = [[nt, [[m.get(x, x) for x in a] for a in alts]] for nt, alts in c["prods"]]
+        g["terms"] = sorted(avail)
+    # symbol names: a symbol named '' (a falsy name), the start symbol left to the constructor's default 'E'
+    nts = list(g["nts"])
+    ren = {}
+    r = rng.random()
+    if r < 0.2:
+        # the start symbol is named 'E' and start_symbol_name is NOT passed
+        if "E" in nts and g["start"] != "E":
+            ren["E"] = g["start"]
+        ren[g["start"]] = "E"
+        start_kw = False
+    else:
+        start_kw = True
+        if r < 0.5:
+            # a symbol named '': the start symbol (then, if possible, another symbol is named 'E') or another one
+            if rng.random() < 0.6:
+                victim = g["start"]
+                others = [n for n in nts if n != victim and n != "E"]
+                if "E" not in nts and others:
+                    ren[rng.choice(others)] = "E"
+            else:
+                victim = rng.choice(nts)
+            ren[victim] = ""
+    if ren:
+        f = lambda x: ren.get(x, x)   # noqa: E731
+        g = dict(g, nts=[f(n) for n in nts], start=f(g["start"]),
+                 prods=[[f(nt), [[f(x) for x in a] for a in alts]] for nt, alts in g["prods"]])
+        assert len(set(g["nts"])) == len(g["nts"])
+    return g, start_kw
+
+
+def _char_class(c):
+    if c.islower():
+        return "l"
+    if c.isupper():
+        return "u"
+    if c.isdigit():
+        return "d"
+    return c
+
+
+def _glue_ok(a, b):
+    """may lexeme b follow lexeme a directly so that they stay the same two tokens"""
+    if a[-1] in "/#" or b[0] in "/#":
+        return False
+    return _char_class(a[-1]) != _char_class(b[0])
+
+
+def _render_tok(rng, info, names):
+    """token names (what the parser is to see) -> (text, ALL tokens of the text [[name, value], ...] in order), or None.
+    Tokens of the skipped classes are thrown in at random.  Lines are split at newlines and right-stripped by the
+    tokenizer: a newline separates two tokens without being one, a white-space token can neither end a line nor follow
+    another one (such tokens are dropped from the sequence BEFORE the text is rendered)."""
+    prod, space = info["prod"], info["space"]
+    if any(n not in prod for n in names):
+        return None
+
+    def pick(n):
+        lx, v, eol = rng.choice(prod[n])
+        return [n, v, lx, eol]
+    deco = [n for n in info["skipset"] if n in prod]
+    if space in deco:
+        deco += [space] * 2
+    items = []
+    for n in list(names) + [None]:
+        k = 0
+        while deco and k < 3 and rng.random() < 0.4:
+            items.append(pick(rng.choice(deco)))
+            k += 1
+        if n is not None:
+            items.append(pick(n))
+    out = []
+    for it in items:
+        if it[0] == space and out and out[-1][0] == space:
+            continue
+        out.append(it)
+    while out and out[-1][0] == space:
+        out.pop()
+    text, prev = "", None
+    for it in out:
+        if prev is None:
+            sep = ""
+        elif prev[3]:
+            sep = "\n"
+        elif prev[0] == space or it[0] == space:
+            sep = ""
+        elif _glue_ok(prev[2], it[2]) and rng.random() < 0.5:
+            sep = ""
+        else:
+            sep = "\n"
+        text += sep + it[2]
+        prev = it
+    if out and rng.random() < 0.15:
+        text += "\n"
+    return text, [[it[0], it[1]] for it in out]
+
+
+def gen_tok_case(rng, diag):
+    tk, info = gen_tokcfg(rng)
+    g, start_kw = _tok_grammar(rng, info)
+    tk["start_kw"] = start_kw
+    skip = set(info["skipset"])
+    texts, inputs, seen = [], [], set()
+    names_list = [[n for n, _ in inp] for inp in gen_inputs(rng, g, 12, 5)]
+    if info["space"] not in skip:
+        # white space where the grammar has none (in front, doubled, between any two tokens): usually no sentence
+        for names in list(names_list[:4]):
+            k = rng.randint(0, len(names))
+            names_list.append(names[:k] + [info["space"]] + names[k:])
+    for names in names_list:
+        r = _render_tok(rng, info, names)
+        if r is None:
+            continue
+        text, full = r
+        if text in seen:
+            continue
+        seen.add(text)
+        texts.append(text)
+        inputs.append([t for t in full if t[0] not in skip])
+    prog = make_prog(rng, len(inputs), g["nts"])
+    if inputs and ("" in g["nts"] or rng.random() < 0.3):
+        # parse(text, start_symbol_name=''): a falsy name that IS given (a symbol of the grammar, or an unknown name: refused)
+        for w in (0, 1):
+            prog.insert(rng.randint(2, len(prog)), ["parse_from", w, rng.randrange(len(inputs)), ""])
+    return {"g": g, "inputs": inputs, "texts": texts, "tok": tk, "diag": diag, "src": "tok", "prog": prog}
+
+
 # ------------------------------------------------------------------ programs over two parser objects
 # op = ["build", w] | ["amb", w] | ["parse", w, i] | ["parse_from", w, i, s]
 #      (w: 0 = smart_factorization False, 1 = True; i: index into inputs; s: parse(text, start_symbol_name=s))
@@ -529,6 +894,9 @@ def gen_cases(rng, tier):
             continue
         got += 1
         add(g, "general", thorough)
+    # tokenizer configurations: white space / comments as ordinary terminals, the skip_tokens argument in every form
+    for _ in range(700 if thorough else 110):
+        cases.append(gen_tok_case(rng, thorough))
     return cases
 
 
@@ -537,7 +905,13 @@ def kind(case):
     p = _plain(g)
     ll1 = L.ref_is_ll1(p, g["start"])
     nul = bool(L.ref_nullable(p))
-    return f"src={case.get('src', 'corpus')} ll1={int(ll1)} nullable={int(nul)}"
+    extra = ""
+    if case.get("tok"):
+        tk = case["tok"]
+        meaning = "default" if tk["skip"] is None else ("nothing" if not tk["skip"] else "explicit")
+        blanks = int(any(n in ("SPACE", "WS", "COMMENT", "REM") for _, alts in g["prods"] for a in alts for n in a))
+        extra = f" skip={meaning}/{tk['skip_form']} blanks_in_grammar={blanks}"
+    return f"src={case.get('src', 'corpus')} ll1={int(ll1)} nullable={int(nul)}{extra}"
 
 
 # ------------------------------------------------------------------ implementation side
@@ -564,14 +938,54 @@ def _clobber(t):
         x.name = "#clobbered"
 
 
+def _tok_kwargs(tk, g):
+    """the keyword arguments of the constructor as the case wants them passed (falsy-but-given values included)"""
+    kwargs = {}
+    if tk["skip_form"] == "none":
+        kwargs["skip_tokens"] = None
+    elif tk["skip_form"] != "omitted":
+        kwargs["skip_tokens"] = TOK_COLL[tk["skip_form"]](tk["skip"])
+    for key, form, val in (("synonyms", tk["syn_form"], dict(map(tuple, tk["syn"]))),
+                           ("keywords", tk["kw_form"], {(n, v): k for n, v, k in tk["kw"]}),
+                           ("span_matchers", tk["spans_form"], {})):
+        if form == "none":
+            kwargs[key] = None
+        elif form == "dict":
+            kwargs[key] = val
+    if tk["keep_form"] == "none":
+        kwargs["keep_symbols"] = None
+    elif tk["keep_form"] != "omitted":
+        kwargs["keep_symbols"] = set() if tk["keep_form"] == "set" else []
+    if tk.get("start_kw", True):
+        kwargs["start_symbol_name"] = g["start"]
+    else:
+        assert g["start"] == "E"        # left to the constructor's default
+    return kwargs
+
+
+def _args_repr(kwargs):
+    return sorted((k, type(v).__name__, repr(sorted(v, key=repr)) if isinstance(v, (set, frozenset)) else repr(v))
+                  for k, v in kwargs.items())
+
+
 def impl_run(case):
     """runs the case's program: all constructor calls get THE SAME productions dict; the objects live as long as the
     program says; every returned tree is observed and then taken apart."""
     from ak import llparser
     g = case["g"]
     prods = {nt: [tuple(a) if a else None for a in alts] for nt, alts in g["prods"]}
-    tok = L.tokenizer_str(g["terms"])
-    texts = [" ".join(v for _, v in inp) for inp in case["inputs"]]
+    tk = case.get("tok")
+    if tk:
+        # the tokenizer configuration and the skip_tokens argument are the case's; ONE object per argument for all
+        # constructor calls of the program
+        tok = _tok_str(tk)
+        texts = list(case["texts"])
+        kwargs = _tok_kwargs(tk, g)
+    else:
+        tok = L.tokenizer_str(g["terms"])
+        texts = [" ".join(v for _, v in inp) for inp in case["inputs"]]
+        kwargs = {"start_symbol_name": g["start"]}
+    args_before = _args_repr(kwargs)
     objs = {0: None, 1: None}
     out = []
     for op in _prog(case):
@@ -579,8 +993,7 @@ def impl_run(case):
         if op[0] == "build":
             objs[w] = None
             try:
-                objs[w] = llparser.LLParser(tok, productions=prods, start_symbol_name=g["start"],
-                                            smart_factorization=bool(w))
+                objs[w] = llparser.LLParser(tok, productions=prods, smart_factorization=bool(w), **kwargs)
                 out.append(["built"])
             except BaseException as e:  # noqa
                 if type(e).__name__ == "Hang":
@@ -612,6 +1025,9 @@ def impl_run(case):
     obs = {"ops": out}
     if case.get("diag"):
         obs["diag"] = [_diag_obs(objs[w]) if objs[w] is not None else None for w in (0, 1)]
+    args_after = _args_repr(kwargs)
+    if args_after != args_before:
+        obs["args_changed"] = [args_before, args_after]
     return obs
 
 
@@ -627,7 +1043,54 @@ def coq_op(op):
     return f"OParse {w} {int(op[2])}%nat"
 
 
+def _c_sx(x):
+    if isinstance(x, bool):
+        return "SZ 1" if x else "SZ 0"
+    if isinstance(x, int):
+        return f"SZ {SX.cZ(x)}"
+    return "SL [" + "; ".join(_c_sx(e) for e in x) + "]"
+
+
+def _c_pat(kind_, arg):
+    if kind_ == "lit":
+        return f"TLit {SX.cstr(arg)}"
+    if kind_ == "range":
+        return f"TRange {ord(arg[0])} {ord(arg[1])}"
+    if kind_ == "space":
+        return "TSpace"
+    if kind_ == "eol":
+        return f"TEol {SX.cstr(arg)}"
+    raise ValueError(kind_)
+
+
+def _c_list(items, ty):
+    items = list(items)
+    return SX.clist(items) if items else f"(@nil {ty})"
+
+
+def _coq_tok_case(case, obs):
+    g, tk = case["g"], case["tok"]
+    cs = L.coq_sym
+    ug = SX.clist(
+        "(" + cs(nt) + ", " + SX.clist(SX.clist(cs(s) for s in alt) if alt else "(@nil (list Z))" for alt in alts) + ")"
+        for nt, alts in g["prods"])
+    lex = _c_list((f"({cs(n)}, {_c_pat(k, a)})" for n, k, a in tk["lex"]), "(list Z * C04.Model.pat)")
+    syn = _c_list((f"({cs(a)}, {cs(b)})" for a, b in tk["syn"]), "(list Z * list Z)")
+    kw = _c_list((f"({cs(n)}, ({SX.cstr(v)}, {cs(k)}))" for n, v, k in tk["kw"]), "(list Z * (list Z * list Z))")
+    cfg = f"(tk_cfg {lex} (@nil (list Z * list Z)) {syn} {kw})"
+    skip = "(@None (list (list Z)))" if tk["skip"] is None else "(Some " + _c_list((cs(x) for x in tk["skip"]), "(list Z)") + ")"
+    texts = _c_list((SX.cstr(t) for t in case["texts"]), "(list Z)")
+    # the token sequence of every text as the GENERATOR knows it (the model tokenises the text itself)
+    expected = _c_list((_c_sx(SX.ok([[SX.s(n), SX.s(v)] for n, v in inp])) for inp in case["inputs"]), "sx")
+    prog = _prog(case)
+    ops = SX.clist(coq_op(o) for o in prog) if prog else "(@nil op)"
+    return (f"SessionTok {cfg} {skip} {ug} {cs(g['start'])} {FUEL}%nat {texts} {expected} {ops} "
+            f"{SX.cbool(bool(case.get('diag')))}")
+
+
 def coq_case(case, obs):
+    if case.get("tok"):
+        return _coq_tok_case(case, obs)
     g = case["g"]
     cs = L.coq_sym
     ug = SX.clist(
@@ -682,6 +1145,9 @@ def expected_sx(case, obs):
         else:
             vals.append(SX.err(ctor[w]))
     diag = [_diag_sx(d) for d in obs["diag"]] if case.get("diag") else []
+    if case.get("tok"):
+        # last part: per text () = the model tokenizer's token sequence is the generator's
+        return SX.dumps([ops, vals[0], vals[1], diag, [[] for _ in case["texts"]]])
     return SX.dumps([ops, vals[0], vals[1], diag])
 
 
@@ -720,7 +1186,21 @@ def oracle(case, obs):
         return []       # outside the quantifier (C03 / malformed grammar)
     ll1 = L.ref_is_ll1(prods, start)
     out = []
-    desc = f"grammar {g['prods']} start {start}"
+    desc = f"grammar {g['prods']} start {start!r}"
+    tk = case.get("tok")
+    if tk:
+        desc += (f" tokenizer {json.dumps(tk['lex'])} synonyms {json.dumps(tk['syn'])} keywords {json.dumps(tk['kw'])} "
+                 f"skip_tokens={'None' if tk['skip'] is None else tk['skip_form'] + '(' + json.dumps(tk['skip']) + ')'}"
+                 f"{'' if tk.get('start_kw', True) else ' start_symbol_name left to the default'}")
+        if obs.get("args_changed"):
+            out.append(("ctor-argument-mutated", f"{desc}: the constructor's arguments were {obs['args_changed'][0]} and are "
+                        f"{obs['args_changed'][1]} after the program"))
+
+    def shown(i):
+        toks = [t for t, _ in case["inputs"][i]]
+        if tk:
+            return f"text {case['texts'][i]!r} (token sequence after skip_tokens {toks})"
+        return f"{toks}"
     members = {}
     trees = {}
 
@@ -770,6 +1250,18 @@ def oracle(case, obs):
                 from_setting[w].setdefault(k2, [])
                 if o[1:] not in from_setting[w][k2]:
                     from_setting[w][k2].append(o[1:])
+                # ... and an ACCEPTED fragment is a sentence of the symbol that was asked for, rooted there (also when the
+                # name is a falsy one: '' is a name like any other), a name that is no symbol of the grammar is refused
+                sym = op[3]
+                if o[1] == "ok":
+                    ftoks = [t for t, _ in case["inputs"][op[2]]]
+                    if sym not in prods:
+                        out.append(("fragment-not-from-symbol", f"{desc} {tag}: parse({shown(op[2])}, start_symbol_name={sym!r}) "
+                                    f"returned a tree although {sym!r} is no symbol of the grammar"))
+                    elif o[2][1] != sym or not L.earley_recognize(prods, sym, ftoks):
+                        out.append(("fragment-not-from-symbol", f"{desc} {tag}: parse({shown(op[2])}, start_symbol_name={sym!r}) "
+                                    f"returned a tree rooted at {o[2][1]!r}; the token sequence is "
+                                    f"{'a' if L.earley_recognize(prods, sym, ftoks) else 'no'} sentence of {sym!r}"))
                 continue
             i = op[2]
             inp = case["inputs"][i]
@@ -785,19 +1277,19 @@ def oracle(case, obs):
                 continue
             mem = member(i)
             if mem and x[0] != "ok":
-                out.append(("sentence-rejected", f"{desc} {tag}: sentence {toks} raised {x[1]} (parse() call number {n_parsed} on the object)"))
+                out.append(("sentence-rejected", f"{desc} {tag}: sentence {shown(i)} raised {x[1]} (parse() call number {n_parsed} on the object)"))
             elif not mem and x[0] == "ok":
-                out.append(("nonsentence-accepted", f"{desc} {tag}: non-sentence {toks} was accepted (parse() call number {n_parsed} on the object)"))
+                out.append(("nonsentence-accepted", f"{desc} {tag}: non-sentence {shown(i)} was accepted (parse() call number {n_parsed} on the object)"))
             elif not mem and x[1] != "ParsingError":
-                out.append(("nonsentence-other-error", f"{desc} {tag}: non-sentence {toks} raised {x[1]}, not ParsingError"))
+                out.append(("nonsentence-other-error", f"{desc} {tag}: non-sentence {shown(i)} raised {x[1]}, not ParsingError"))
             elif mem:
                 tr = the_trees(i)
                 if len(tr) != 1:
                     if reported_free:
-                        out.append(("conflict-free-but-ambiguous", f"{desc} {tag}: is_ambiguous() is False but {toks} "
+                        out.append(("conflict-free-but-ambiguous", f"{desc} {tag}: is_ambiguous() is False but {shown(i)} "
                                     f"has {len(tr)}+ derivations"))
                 elif tr[0] != x[1]:
-                    out.append(("wrong-tree", f"{desc} {tag}: {toks} parsed to {x[1]}, the unique derivation is {tr[0]} "
+                    out.append(("wrong-tree", f"{desc} {tag}: {shown(i)} parsed to {x[1]}, the unique derivation is {tr[0]} "
                                 f"(parse() call number {n_parsed} on the object)"))
     # a parser's answer depends on the grammar and the text, not on what the object (or another object built from the
     # same productions dict) did before
@@ -889,7 +1381,10 @@ def _restrict(case, keep):
                 prog.append([op[0], op[1], idx[op[2]]] + list(op[3:]))
         else:
             prog.append(list(op))
-    return dict(case, inputs=[case["inputs"][i] for i in keep], prog=prog)
+    c = dict(case, inputs=[case["inputs"][i] for i in keep], prog=prog)
+    if "texts" in case:
+        c["texts"] = [case["texts"][i] for i in keep]
+    return c
 
 
 def shrink_candidates(case):
@@ -919,7 +1414,8 @@ def shrink_candidates(case):
 TECHNIQUE = ("Coq proof (fixpoint iterations shown sound by invariant and complete by 'closed + enough fuel'; table by "
              "membership characterisation; big-step simulation of the parser's stack machine on a derivation tree) over the "
              "hand-written Gallina model coq/LLP + per-run correspondence (vm_compute vs implementation) of whole programs over two "
-             "parser objects (both smart_factorization values, one productions dict; is_ambiguous() and parse() at many moments) "
+             "parser objects (both smart_factorization values, one productions dict; is_ambiguous() and parse() at many moments; "
+             "with the plain tokenizer on token lists, and with generated tokenizer configurations / skip_tokens arguments on texts) "
              "+ independent LL(1)/Earley/derivation-enumeration oracle")
 LEVEL_TEXT = ("Partial.  Full theorems (model level, all grammars accepted by the shape validator wf_grammar, all tokens): "
               "nullable_exact, first_exact, follow_exact (the three fuelled fixpoints of _get_nullables/_calc_first_sets/"
@@ -932,7 +1428,17 @@ LEVEL_TEXT = ("Partial.  Full theorems (model level, all grammars accepted by th
               "is_ambiguous_any_moment, parse_any_moment, objects_stay_as_constructed, built_object_answers (all trivial in the model, "
               "where a parser is a value: they say what the correspondence of programs checks about the implementation's objects), "
               "ll1_reported_any_moment_partial and ll1_complete_any_moment_partial (the partial theorems below lifted to every moment of every "
-              "program).  Partial: ll1_reported_partial / "
+              "program).  PropsTok.v, for parsers built with a tokenizer configuration and used on texts (full, by "
+              "C01.PropsTok.parse_text_sound, imported): skip_tokens_explicit, skip_tokens_default, empty_skip_tokens_skips_nothing "
+              "(an explicitly empty collection: the token sequence is everything the tokenizer delivers), token_sequence_is_filtered, "
+              "parse_text_is_parse_of_tokens, parse_text_returns_derivation + ll1_reject_text (any configuration, any skip_tokens "
+              "argument: an accepted text's tree is a derivation of ITS token sequence = tokenizer output minus the skipped names; a "
+              "text whose token sequence is no sentence is never accepted), build_with_tokenizer (the table does not depend on "
+              "skip_tokens), session_text_history_independent, is_ambiguous_any_moment_text, parse_text_any_moment, "
+              "parse_text_from_any_moment, objects_stay_as_constructed_text, parse_text_returns_derivation_any_moment; partial (as "
+              "ll1_complete_partial): ll1_complete_text_partial; examples ex_blank_significant / ex_blank_skipped (E -> WORD TAIL; "
+              "TAIL -> SPACE WORD TAIL | eps with skip_tokens [] / [COMMA] resp. None / [SPACE], group SPACE resp. WS renamed by "
+              "synonyms), ex_skip_unknown_name.  Partial: ll1_reported_partial / "
               "ll1_reported_no_common_prefix (LL(1) as written => is_ambiguous() False) only when the factorization is the identity "
               "(factorization_identity: no two adjacent alternatives with the same first symbol), for other grammars only "
               "ll1_reported_factorized (conflict-free iff the FACTORIZED grammar is LL(1)); ll1_complete_partial + "
@@ -945,5 +1451,6 @@ LEVEL_TEXT = ("Partial.  Full theorems (model level, all grammars accepted by th
               "is-ambiguous-changed, parse-history-dependent beside the language ones).")
 LEVEL_NOTE = ("Trusted: Coq kernel + vm_compute; fidelity of the hand model coq/LLP (checked by correspondence on every run, incl. the "
               "internal nullable/FIRST/FOLLOW sets and the table in the thorough tier); wf_grammar is "
-              "evaluated on every generated grammar (translation validation of the theorems' hypothesis); the tokenizer; the harness.")
+              "evaluated on every generated grammar (translation validation of the theorems' hypothesis); the tokenizer model of C04 "
+              "(compared with the generator's token sequences on every tok case); the harness.")
 DESIGN_REF = "DESIGN.md section 8, C02"
